@@ -373,6 +373,11 @@ def c02_branch(op, f, track):
         keys.append("req:offset-near-maxuint64")
     if op["cf"] != "-" or op["sf"] != "-":
         keys.append("filters:set")
+        after = [t for o, t, _ in track.log.get(f["E"], []) if o > f["off"]]
+        if after and not f["missing"] and not f["beyond"]:
+            npass = sum(1 for t in after if passes(op, t))
+            keys.append("filters:exclude-all-after-offset" if npass == 0 else
+                        "filters:exclude-none" if npass == len(after) else "filters:exclude-some")
     return keys
 
 
